@@ -657,6 +657,18 @@ func (g *G) leaf(c ctxKind, noMarker bool) {
 			g.emit(ev.Event{K: ev.Time, T: TimeValue(g.t, "leaf.time")})
 		case 15, 16, 17:
 			s := UTF8String(g.t, "leaf.str", g.strMax(), g.o.FullUnicode)
+			if g.o.MaxArr >= 34 && g.chance("str.longplain", 12) {
+				// a long string that needs no escape, around the sizes at which the encoders' scratch buffers grow
+				n := rapid.SampledFrom([]int{31, 32, 33, 34, 63, 64, 65, 100, 130}).Draw(g.t, "str.plainlen")
+				if n > g.o.MaxArr {
+					n = 34
+				}
+				b := make([]byte, n)
+				for i := range b {
+					b[i] = "abcdefghijklmnopqrstuvwxyz0123456789"[(i*7+n)%36]
+				}
+				s = string(b)
+			}
 			g.emitArray(events.ArrayTypeString, 0, []byte(s))
 		case 18:
 			g.emitArray(events.ArrayTypeResourceID, 0, []byte(g.ridText("leaf.rid")))
